@@ -245,7 +245,7 @@ class GlobalizedNewtonMethod(NewtonMethod):
 
         self._set_iterate(iterate)
 
-        step_result = self.step_solver.solve(self.orig_iterate)
+        step_result = self.step_solver.solve(iterate)
 
         # Armijo line search:
         alpha = 1.0
@@ -273,9 +273,8 @@ class GlobalizedNewtonMethod(NewtonMethod):
         max_it = 30
 
         for it in range(max_it):
-            next_iterate = Iterate(
-                problem, params, iterate.x - dx, iterate.y - dy, iterate.eval
-            )
+            next_x = np.clip(iterate.x - dx, problem.var_lb, problem.var_ub)
+            next_iterate = Iterate(problem, params, next_x, iterate.y - dy, iterate.eval)
 
             next_func_value = self.func.value_at(next_iterate, self.rho)
             next_res_value = 0.5 * np.dot(next_func_value, next_func_value)
@@ -295,7 +294,7 @@ class GlobalizedNewtonMethod(NewtonMethod):
 
         logger.debug("Line search converged in %d iterations", it + 1)
 
-        step_result = StepResult(self.orig_iterate, dx, dy, active_set=None, rcond=None)
+        step_result = StepResult(iterate, dx, dy, active_set=None, rcond=None)
 
         step_result.active_set = self.func.compute_active_set(
             step_result.iterate, self.rho, self.tau
